@@ -435,16 +435,21 @@ def main():
         if replay is None and os.path.isdir(corpus_dir):
             tmp = os.path.join(CASES, f"{pid}_corpus.jsonl")
             n = 0
+            corpus_meta = []
             with open(tmp, "w") as f:
                 for fn in sorted(os.listdir(corpus_dir)):
                     if fn.endswith(".json"):
                         j = json.load(open(os.path.join(corpus_dir, fn)))
                         f.write(json.dumps(j.get("input", j)) + "\n")
+                        corpus_meta.append({"file": fn, "known_finding": j.get("known_finding")})
                         n += 1
             if n:
                 _, corpus_cases, _ = run_harness(pid, seed, tier, replay=tmp)
                 for c in corpus_cases:
                     c.setdefault("tags", []).append("corpus")
+                    if c.get("id") is not None and c["id"] < len(corpus_meta):
+                        c["corpus_file"] = corpus_meta[c["id"]]["file"]
+                        c["known_finding"] = corpus_meta[c["id"]]["known_finding"]
         rc, gen_cases, herr = run_harness(pid, seed, tier, replay=replay)
         if rc != 0:
             problems.append({"kind": "harness-run", "what": f"rio-harness {pid} exited {rc}", "detail": herr})
@@ -471,6 +476,13 @@ def main():
             evaluated += 1
             if v == 0:
                 continue
+            if c.get("known_finding") and (v & cfg.get("spec_bits", 4)):
+                # a committed corpus case that reproduces a LISTED open finding: reported, not an alarm
+                k = next((k for k in known if k.get("name") == c["known_finding"]), None)
+                if k is not None:
+                    known_hits.setdefault(k["name"], {"finding": k, "count": 0, "example": c["json"]})
+                    known_hits[k["name"]]["count"] += 1
+                    continue
             kcode = v >> 8
             if kcode:
                 k = next((k for k in known if k.get("code") == kcode), None)
